@@ -6,5 +6,7 @@ CONSTANTS
   Insts = {"A"}
   Tables = {"none"}
   ExtremeFrom = 1
+  Profiles = {"default"}
+  Rejectable = {}
 INVARIANTS TypeOKArith BoundIsThreshold KeepIsThreshold RateLE1KeepsAll ArithNested ArithNestedUp ArithKeptCount ArithFraction
 CHECK_DEADLOCK FALSE
